@@ -222,7 +222,7 @@ impl Check for C17 {
         if tier == Tier::Quick { 200 } else { 2000 }
     }
     fn required_counters(&self) -> Vec<&'static str> {
-        vec!["compactions_moving_entries", "arena_entries_compared", "batteries_compared", "retransmissions_compared", "refused_requests_checked", "acknowledged_entries_freed", "continuations_on_a_fresh_broker_session", "send_windows_refilled", "exchanges_ended_by_a_failure_code", "windows_with_subscribe_requests_in_between"]
+        vec!["compactions_moving_entries", "arena_entries_compared", "batteries_compared", "retransmissions_compared", "refused_requests_checked", "acknowledged_entries_freed", "continuations_on_a_fresh_broker_session", "send_windows_refilled", "exchanges_ended_by_a_failure_code", "windows_with_subscribe_requests_in_between", "repeated_pubrecs"]
     }
     fn run(&self, workload: usize, seed: u64, _index: u64, tier: Tier, verbose: bool) -> CaseOut {
         let mut out = CaseOut::default();
@@ -352,6 +352,13 @@ fn window_recovery(rng: &mut Rng, seed: u64, verbose: bool) -> CaseOut {
                 ended_by.push(format!("PUBREC/{:?}", reason));
                 if !fail {
                     steps.push(poll0());
+                    // a broker may repeat its PUBREC (it did not see the PUBREL yet)
+                    if rng.chance(1, 4) {
+                        steps.push(Step::Broker(BrokerAct::Send(SPacket::PubRec { pid: id, reason: *rng.pick(&[None, Some(0u8)]), props: None })));
+                        steps.push(poll0());
+                        steps.push(poll0());
+                        out.count("repeated_pubrecs", 1);
+                    }
                     steps.push(Step::Broker(BrokerAct::Send(SPacket::PubComp { pid: id, reason: *rng.pick(&[None, Some(0u8), Some(0x92)]), props: None })));
                     steps.push(poll0());
                 }
